@@ -36,7 +36,7 @@ THEOREMS = [
         "classify_lists", "classify_exactly_one", "outsideAll_iff", "nondetection_exact_frame",
         "nondetection_exact", "nondetection_mem", "wn_parallelogram", "wn_parallelogram_value",
         "wn_is_sum_mod_256", "inside_iff_geometric_affine", "inside_iff_geometric", "scale_mono",
-        "scale_mono_crop", "scaleFactor_spec", "isNone_spec", "index_quirk_unobservable", "index_quirk_unobservable_box",
+        "scale_mono_crop", "scaleFactor_spec", "scaleFactor_linear", "isNone_spec", "index_quirk_unobservable", "index_quirk_unobservable_box",
     ]
 ]
 RULE = (
@@ -46,6 +46,10 @@ RULE = (
     "quaternions, identity) x several scales x clouds N x {2,3,4} with clusters inside, between the scales and "
     "outside, every non-boundary point >= 1e-6 from each edge line; (iii) evaluate_frame with visibility "
     "annotations, thresholds straddling the counts, constant and distance-dependent scales, non-detection clouds; "
+    "objects in every range class: at the sensor (distance 0 and a few cm), exactly 100 m away, 100-1000 m away (half of the scenes), "
+    "scales below and above 1, growing and shrinking with the distance (also extrapolated to a small positive number), and points in "
+    "the rings between the footprint at the true scale and at plausible wrong scales (clamped to the 0-100 m interval, box_scale_0m, "
+    "box_scale_100m, unscaled); "
     "(iv) the manager's add_frame_result with polygonal non-detection areas, target uuids and a frame config that "
     "differs from the manager's; malformed clouds/areas; (v) derived objects: 1-3 objects used at pose 1 (1-3 of crop in/out, "
     "count, point_exist, get_corners, get_footprint, DynamicObjectWithSensingResult, evaluate_frame; at one or two scales; on the "
@@ -67,6 +71,8 @@ ASSUMPTIONS = [
     "construction and re-checked exactly); points exactly on a boundary are compared model-vs-code only and only "
     "where float arithmetic is exact (identity orientation, dyadic data, vertices, axis-parallel edges, edge midpoints)",
     "ground-truth objects are in base_link, carry no FP label, sizes > 0",
+    "the scale at an object's distance is positive (>= 1/16): with box_scale_100m < box_scale_0m the linear law reaches 0 at some "
+    "distance; objects are placed short of it (a non-positive factor is not a footprint scale)",
     "derived objects: the pose is the one read back from the derived object (whether a conversion/interpolation computes the right "
     "pose is not part of C12); frames on derived objects use a constant scale; a pose produced by a frame conversion carries float "
     "noise in its height, so points within 1e-6 of its z-bounds are not judged against the exact oracle (still compared with a fresh object)",
@@ -968,9 +974,27 @@ def _gen_quat(rng, mode):
     return ["1", str(a), str(b), str(t)]
 
 
-def _gen_box(rng, mode=None, near=None):
+_AT_100 = [(100.0, 0.0), (0.0, -100.0), (60.0, 80.0), (-80.0, 60.0), (28.0, -96.0), (-96.0, -28.0), (-60.0, -80.0), (70.0, 71.5)]
+
+
+def _place(rng, rclass, dmax=1000.0):
+    """a centre in a range class: at the sensor (distance 0 or a few cm), exactly / about 100 m away, 100 m .. dmax"""
+    if rclass == "origin":
+        return [0.0, 0.0, rng.choice([0.0, 0.0, 0.125, -0.5])]
+    if rclass == "at100":
+        x, y = rng.choice(_AT_100)
+        return [x, y, rng.choice([0.0, 0.0, 0.0, 1.0, -0.5])]
+    d = rng.choice([rng.uniform(100.0, 130.0), rng.uniform(100.0, 300.0), rng.uniform(100.0, 1000.0)])
+    d = min(d, dmax)
+    a = rng.uniform(0, 2 * math.pi)
+    return [round(d * math.cos(a) * 8) / 8, round(d * math.sin(a) * 8) / 8, _dy(rng, -2, 2)]
+
+
+def _gen_box(rng, mode=None, near=None, rclass=None, dmax=1000.0):
     mode = mode or rng.choice(["identity", "yaw", "yaw", "yaw", "yaw_flip", "full"])
-    if near is None:
+    if rclass is not None:
+        pos = _place(rng, rclass, dmax)
+    elif near is None:
         pos = [_dy(rng, -40, 40), _dy(rng, -40, 40), _dy(rng, -2, 2)]
     else:
         pos = [near[0] + _dy(rng, -6, 6), near[1] + _dy(rng, -6, 6), _dy(rng, -2, 2)]
@@ -986,12 +1010,19 @@ def _box_points(rng, box, scales, n, boundary_ok):
     w, l, h = box["size"]
     cx, cy, cz = box["pos"]
     smin, smax = min(scales), max(scales)
+    rings = sorted(set(float(v) for v in scales))
     rows, bidx = [], []
     tries = 0
     while len(rows) < n and tries < 30 * n:
         tries += 1
         u = rng.random()
-        if u < 0.35:
+        if len(rings) > 1 and u < 0.25:
+            # in the ring between two neighbouring scales (the true one and a plausible wrong one)
+            j = rng.randrange(len(rings) - 1)
+            lo, hi = rings[j], rings[j + 1]
+            m = rng.uniform(lo + 0.1 * (hi - lo), hi - 0.1 * (hi - lo))
+            a, b = (rng.choice([-m, m]), rng.uniform(-1, 1) * m) if rng.random() < 0.5 else (rng.uniform(-1, 1) * m, rng.choice([-m, m]))
+        elif u < (0.45 if len(rings) > 1 else 0.35):
             a, b = rng.uniform(-0.95, 0.95) * smin, rng.uniform(-0.95, 0.95) * smin
         elif u < 0.65:
             a, b = rng.uniform(-1.1, 1.1) * smax, rng.uniform(-1.1, 1.1) * smax
@@ -1065,14 +1096,19 @@ _VIS = ["FULL", "MOST", "PARTIAL", "NONE", "NONE", "NONE", "UNAVAILABLE", None, 
 
 
 def _gen_cfg(rng, uuids=None):
-    mode = rng.choice(["const", "const1", "dist", "dist", "shrink"])
+    mode = rng.choice(["const", "const1", "dist", "dist", "shrink", "below1", "gentle"])
     if mode == "const1":
         s0 = s100 = 1.0
     elif mode == "const":
-        s0 = s100 = rng.choice([0.75, 1.0, 1.25, 1.5, 1.1])
+        s0 = s100 = rng.choice([0.75, 1.0, 1.25, 1.5, 1.1, 0.5])
     elif mode == "dist":
         s0 = rng.choice([0.75, 1.0, 1.0, 1.1])
         s100 = s0 + rng.choice([0.25, 0.5, 1.0, 0.3])
+    elif mode == "below1":  # both scales below 1, growing or shrinking
+        s0, s100 = rng.choice([(0.5, 0.75), (0.75, 0.5), (0.25, 0.5), (0.9, 0.8), (0.5, 0.9)])
+    elif mode == "gentle":  # a small slope in either direction: stays positive for hundreds of metres
+        s0 = rng.choice([1.0, 1.25, 2.0, 0.75])
+        s100 = s0 + rng.choice([-0.125, -0.0625, 0.0625, 0.125, -0.1])
     else:
         s0 = rng.choice([1.5, 2.0])
         s100 = s0 - rng.choice([0.25, 0.5])
@@ -1082,15 +1118,37 @@ def _gen_cfg(rng, uuids=None):
 def _scene(rng, nobj, cfgs, npts, per_obj=(0, 1, 2, 3, 4, 6, 10)):
     """objects (some overlapping), a cloud with clusters in / around every box under every configuration's scale"""
     objs = []
+    # the range over which every configuration's scale stays clearly positive (a shrinking scale reaches 0 somewhere:
+    # a non-positive scale is not a footprint scale); far objects are placed within it, also where the scale has
+    # extrapolated to a small positive number
+    dmax = 1000.0
+    for c in cfgs:
+        if c["s100"] < c["s0"]:
+            dmax = min(dmax, 100.0 * (c["s0"] - rng.choice([0.0625, 0.125, 0.25, 0.5])) / (c["s0"] - c["s100"]))
+    wide = rng.random() < 0.5  # half of the scenes hold objects outside the 'typical' 0 .. 60 m
     for i in range(nobj):
-        near = objs[-1]["box"]["pos"] if objs and rng.random() < 0.4 else None
-        b = _gen_box(rng, near=near)
+        rclass = rng.choice(["origin", "at100", "far", "far", "far", None]) if wide else None
+        if rclass in ("at100", "far") and dmax < 101.0:
+            rclass = None
+        near = objs[-1]["box"]["pos"] if objs and rclass is None and rng.random() < 0.4 else None
+        b = _gen_box(rng, near=near, rclass=rclass, dmax=dmax)
+        if rclass is not None:
+            b["range"] = rclass
         objs.append({"box": b, "uuid": rng.choice([f"u{i}", f"u{i}", "dup", None]), "vis": rng.choice(_VIS)})
     rows = []
     for o in objs:
         d = math.sqrt(sum(v * v for v in o["box"]["pos"]))
         scales = [float(_scale(c, _F(d))) for c in cfgs]
-        scales = [s for s in scales if s > 0] or [1.0]
+        true_scales = list(scales)
+        # plausible wrong scales: clamped to the 0 .. 100 m interval, the end values, no scaling at all
+        for c in cfgs:
+            if c["s0"] != c["s100"]:
+                scales += [float(_scale(c, _F(min(d, 100.0)))), float(c["s0"]), float(c["s100"]), 1.0]
+        scales = sorted(set(s for s in scales if s > 0)) or [1.0]
+        if len(scales) > 4:  # keep the true ones and the nearest wrong ones
+            keep = set(s for s in true_scales if s > 0)
+            rest = sorted((s for s in scales if s not in keep), key=lambda v: min(abs(v - t) for t in keep) if keep else 0)
+            scales = sorted(keep | set(rest[:4 - len(keep)])) if len(keep) < 4 else sorted(keep)
         r, _ = _box_points(rng, o["box"], scales, rng.choice(per_obj) if npts else 0, boundary_ok=False)
         rows.extend(r)
     for _ in range(npts):
@@ -1220,6 +1278,19 @@ def corpus():
                "nd_clouds": [cloud, [[0.0, 0.0, 0.0]], []]})
     cs.append({"kind": "frame", "cols": 4, "cloud": cloud, "objs": [], "cfg": {"s0": 1.0, "s100": 2.0, "min_points": 1, "uuids": None, "mode": "dist"},
                "nd_clouds": [cloud, []]})
+    # objects outside the 0..100 m interval on which the two scales are given: the scale is ONE linear law (2.0 at 200 m for
+    # 1.0 -> 1.5; 0.5 at 300 m for 2.0 -> 1.5), with points between the true footprint and the one clamped at 100 m / unscaled
+    far = [{"box": dict(unit, pos=[200.0, 0.0, 0.0], range="far"), "vis": "FULL"},
+           {"box": dict(unit, pos=[0.0, -300.0, 0.0], range="far"), "vis": None},
+           {"box": dict(unit, pos=[60.0, 80.0, 0.0], range="at100"), "vis": "FULL"},
+           {"box": dict(unit, pos=[0.0, 0.0, 0.0], range="origin"), "vis": "FULL"}]
+    fcloud = [[200.0, 0.0, 0.0], [203.5, 0.0, 0.0], [200.0, 1.75, 0.0], [204.5, 0.0, 0.0], [202.5, 0.0, 0.0],
+              [1.5, -300.0, 0.0], [0.0, -300.0, 0.0], [0.0, -300.75, 0.0], [2.5, -300.0, 0.0], [4.5, -300.0, 0.0],
+              [62.5, 80.0, 0.0], [63.5, 80.0, 0.0], [60.0, 81.25, 0.0], [2.5, 0.0, 0.0], [3.5, 0.0, 0.0], [0.0, 1.25, 0.0]]
+    for s0, s100 in ((1.0, 1.5), (2.0, 1.5), (0.5, 0.75)):
+        cs.append({"kind": "frame", "cols": 3, "cloud": fcloud, "objs": [dict(o) for o in far],
+                   "cfg": {"s0": s0, "s100": s100, "min_points": 2, "uuids": None, "mode": "dist" if s0 < s100 else "shrink"},
+                   "nd_clouds": [fcloud]})
     # derived objects: a ground truth evaluated in base_link, then expressed in the map frame (a quarter turn and a shift) and
     # cropped at the same scale; and an annotation moved in place between two frames
     car = {"pos": [10.0, 0.0, 1.0], "quat": ["1", "0", "0", "1/8"], "size": [2.0, 4.0, 2.0], "mode": "yaw"}
@@ -1762,6 +1833,23 @@ def branches(case, out):
         if r["num"] >= cfg["min_points"]:
             b.append(f"{k}:warning-with-enough-points")
             break
+    # range classes and scale regimes; does a judged point tell the true scale from a plausible wrong one?
+    rows, cols = case["cloud"], case["cols"]
+    for o, d in zip(case["objs"], out.get("dists", [])):
+        rc = "0m" if d == 0 else "<1m" if d < 1 else "<100m" if d < 100 else "=100m" if d == 100 else "100-300m" if d < 300 else ">=300m"
+        b.append(f"{k}:range:{rc}")
+        kt = _scale(cfg, _F(d))
+        if cfg["s0"] != cfg["s100"]:
+            b.append(f"{k}:scale-at-object:" + ("<0.25" if kt < Fr(1, 4) else "<1" if kt < 1 else "1-2" if kt <= 2 else ">2")
+                     + (":beyond-100m" if d > 100 else ""))
+            if cols >= 2:
+                for name, kw in (("clamped", _scale(cfg, _F(min(d, 100.0)))), ("unscaled", Fr(1)), ("scale0", _F(cfg["s0"]))):
+                    if kw == kt or kw <= 0:
+                        continue
+                    near = [r for r in rows if abs(r[0] - o["box"]["pos"][0]) + abs(r[1] - o["box"]["pos"][1]) < 8 * float(max(kt, kw, 1))]
+                    if any((lambda a, c: a is not None and c is not None and a != c)(
+                            _box_inside(o["box"], kt, r, cols), _box_inside(o["box"], kw, r, cols)) for r in near):
+                        b.append(f"{k}:point-between-true-and-{name}-footprint" + (":beyond-100m" if d > 100 else ""))
     b.append(f"{k}:nd-reported:{min(len(out['nd']), 3)}")
     if k == "frame":
         b.append(f"frame:nd-given:{min(len(case['nd_clouds']), 3)}")
